@@ -28,8 +28,9 @@ evaluated); `applyLoop`/`applyBatch` take it per entry (`fastOf`). The Go code c
 Outside the model (the driver rejects such input): non-increasing log indexes per replica (the tracker's
 `panic("saw later index …")` branch, proved unreachable under increasing indexes in `Obao/Proofs/RaftFSM.lean`),
 unparsable `beginTxOp`/`verifyListOp` JSON and bolt `Put` errors (empty / oversized keys) — these make
-`ApplyBatch` panic and are never produced by `RaftBackend`; `after`/`prefix` values that `filepath.Join`
-rewrites (the subject of C13).
+`ApplyBatch` panic and are never produced by `RaftBackend`. Since the repair 2f3ed8e `listPageInner` seeks to the
+plain concatenation `prefix + after` (no `filepath.Join`), so every `prefix`/`after` is inside the model: prefixes
+without trailing slash, `after` values with empty or dot segments.
 -/
 namespace Obao.RaftFSM
 
@@ -117,20 +118,9 @@ def slashIndex : List Nat → Option Nat
   | [] => none
   | c :: cs => if c = slash then some 0 else (slashIndex cs).map (· + 1)
 
-/-- `filepath.Join(prefix, after)` for the inputs the driver admits (`prefix` empty or clean and ending in
-`/`; `after` one clean path segment, optionally followed by `/`): the concatenation with the trailing slash
-removed. -/
-def joinClean (pfx after : Key) : Key :=
-  let j := pfx ++ after
-  match j.getLast? with
-  | some c => if c = slash then j.dropLast else j
-  | none => j
-
-def seekKey (pfx after : Key) : Key :=
-  if after = [] then pfx
-  else
-    let j := joinClean pfx after
-    if hasPrefix pfx j then j else pfx
+/-- `seekPrefix := []byte(prefix + after)`: the plain concatenation, never cleaned; it always carries the
+prefix (`after = ""` gives the prefix itself) -/
+def seekKey (pfx after : Key) : Key := pfx ++ after
 
 /-- body of the cursor loop over the candidate keys (in key order), `acc` = `keys` so far -/
 def listLoop (pfx after : Key) (limit : Int) : List Key → List Key → List Key
